@@ -443,7 +443,11 @@ class ProvRecord(object):
                     )
 
                 if (
-                    not (is_collection and attr == PROV_ATTR_ENTITY)
+                    not (
+                        is_collection
+                        and attr == PROV_ATTR_ENTITY
+                        and self.get_type() == PROV_MEMBERSHIP
+                    )
                     and attr in PROV_ATTRIBUTES
                     and self._attributes[attr]
                 ):
